@@ -1,4 +1,5 @@
 import Inkayaku.Spec.Minimax
+import Inkayaku.Model.SpecSearch
 /-!
 # Alpha-beta = minimax (helper proofs for C08)
 
@@ -179,6 +180,24 @@ theorem Qexact_fuel_stable (h : QGame P μ) (rank : P → Nat)
       obtain ⟨m, hm, rfl⟩ := List.mem_map.mp hc
       have := hr p m hm
       exact ih _ (by omega) f (by omega)
+
+/-- capture resolution stays within the range of the stand-pat values -/
+theorem Qexact_bound (h : QGame P μ) (B : Int) (hB : ∀ p, -B ≤ h.standPat p ∧ h.standPat p ≤ B) :
+    ∀ f p, -B ≤ Qexact h f p ∧ Qexact h f p ≤ B := by
+  intro f
+  induction f with
+  | zero => intro p; exact hB p
+  | succ f ih =>
+    intro p
+    simp only [Qexact]
+    constructor
+    · have := le_mmFold (Qexact h f) (h.standPat p) ((h.captures p).map (h.child p))
+      have := (hB p).1
+      omega
+    · apply mmFold_le _ _ _ _ (hB p).2
+      intro c _
+      have := (ih c).1
+      omega
 
 /-! ## Alpha-beta -/
 
@@ -610,3 +629,137 @@ theorem inv_deepen (g : Game P μ) (draft draft' : P → Nat) (hle : ∀ p, draf
 end TT
 
 end Inkayaku.Minimax
+
+/-! ## The board instance: value ranges -/
+namespace Inkayaku.SpecSearch
+open Inkayaku.Board Inkayaku.Eval Inkayaku.Gen Inkayaku.Minimax
+
+theorem winScore_val : winScore = 16777216 := by decide
+theorem lossScore_val : lossScore = -16777216 := by decide
+theorem drawScore_val : drawScore = 0 := by decide
+
+theorem popcount_le (x : UInt64) : popcount x ≤ 64 := by
+  unfold popcount bitsAsc
+  have := List.length_filter_le (testU x) (List.range 64)
+  simpa using this
+
+theorem pieceValue_bound (s : Side) : 0 ≤ pieceValue s ∧ pieceValue s ≤ 137600 := by
+  unfold pieceValue
+  simp only [queenValue, rookValue, bishopValue, knightValue, pawnValue]
+  have h1 := popcount_le s.queens
+  have h2 := popcount_le s.rooks
+  have h3 := popcount_le s.bishops
+  have h4 := popcount_le s.knights
+  have h5 := popcount_le s.pawns
+  omega
+
+/-- all piece-square entries of the current build are within ±50 -/
+def tablesBounded (t : List (List (List Int))) : Bool :=
+  t.all fun a => a.all fun u => u.all fun x => decide (-50 ≤ x) && decide (x ≤ 50)
+
+theorem tables_bounded : tablesBounded whiteTables = true ∧ tablesBounded blackTables = true := by decide +kernel
+
+theorem getD_mem_or {α : Type} (l : List α) (i : Nat) (d : α) : l.getD i d = d ∨ l.getD i d ∈ l := by
+  rw [List.getD_eq_getElem?_getD]
+  cases h : l[i]? with
+  | none => left; rfl
+  | some x => right; exact List.mem_of_getElem? h
+
+theorem entry_bound (t : List (List (List Int))) (ht : tablesBounded t = true) (i j k : Nat) :
+    -50 ≤ ((t.getD i []).getD j []).getD k 0 ∧ ((t.getD i []).getD j []).getD k 0 ≤ 50 := by
+  unfold tablesBounded at ht
+  simp only [List.all_eq_true, Bool.and_eq_true, decide_eq_true_eq] at ht
+  rcases getD_mem_or ((t.getD i []).getD j []) k 0 with h | h
+  · rw [h]; omega
+  · rcases getD_mem_or (t.getD i []) j [] with h2 | h2
+    · rw [h2] at h; cases h
+    · rcases getD_mem_or t i [] with h3 | h3
+      · rw [h3] at h2; cases h2
+      · exact ht _ h3 _ h2 _ h
+
+theorem foldl_add_bound (l : List Nat) (g : Nat → Int) (hg : ∀ s, -50 ≤ g s ∧ g s ≤ 50) (a : Int) :
+    a - 50 * l.length ≤ l.foldl (fun acc s => acc + g s) a ∧ l.foldl (fun acc s => acc + g s) a ≤ a + 50 * l.length := by
+  induction l generalizing a with
+  | nil => simp
+  | cons x xs ih =>
+    simp only [List.foldl_cons, List.length_cons]
+    have := ih (a + g x)
+    have := hg x
+    omega
+
+theorem squareSum_bound (occ : UInt64) (tbl : List Int) (h : ∀ s, -50 ≤ tbl.getD s 0 ∧ tbl.getD s 0 ≤ 50) :
+    -3200 ≤ squareSum occ tbl ∧ squareSum occ tbl ≤ 3200 := by
+  unfold squareSum
+  have := foldl_add_bound (bitsAsc occ) (fun s => tbl.getD s 0) h 0
+  have hl : (bitsAsc occ).length ≤ 64 := popcount_le occ
+  omega
+
+theorem sideSquareSum_bound (s : Side) (t : List (List (List Int))) (ht : tablesBounded t = true) (stage : Nat) :
+    -19200 ≤ sideSquareSum s (t.getD stage []) ∧ sideSquareSum s (t.getD stage []) ≤ 19200 := by
+  unfold sideSquareSum
+  have h0 := squareSum_bound s.pawns _ (entry_bound t ht stage 0)
+  have h1 := squareSum_bound s.knights _ (entry_bound t ht stage 1)
+  have h2 := squareSum_bound s.bishops _ (entry_bound t ht stage 2)
+  have h3 := squareSum_bound s.rooks _ (entry_bound t ht stage 3)
+  have h4 := squareSum_bound s.queens _ (entry_bound t ht stage 4)
+  have h5 := squareSum_bound s.kings _ (entry_bound t ht stage 5)
+  omega
+
+/-- the static evaluation of the current build is far inside the score range -/
+theorem evaluateOngoing_bound (b : Board) : -176000 ≤ evaluateOngoing b ∧ evaluateOngoing b ≤ 176000 := by
+  unfold evaluateOngoing pieceSquareValue
+  have hw := pieceValue_bound b.white
+  have hb := pieceValue_bound b.black
+  have h1 := sideSquareSum_bound b.white whiteTables tables_bounded.1 (gameStage b)
+  have h2 := sideSquareSum_bound b.black blackTables tables_bounded.2 (gameStage b)
+  simp only
+  omega
+
+theorem factor_cases (c : Nat) : Search.factor c = 1 ∨ Search.factor c = -1 := by
+  unfold Search.factor; split <;> simp
+
+theorem standPat_bound (b : Board) (c : Nat) :
+    -176000 ≤ Search.evalFor b c true ∧ Search.evalFor b c true ≤ 176000 := by
+  unfold Search.evalFor evaluate
+  simp only [if_true]
+  have h := evaluateOngoing_bound b
+  have hd := drawScore_val
+  rcases factor_cases c with hf | hf <;> rw [hf] <;> split <;> omega
+
+/-- the value of a position without legal move, for its mover: `-(winScore - fullmove)` when in check, else 0 -/
+theorem term_value (b : Board) (ht : b.turn ≤ 1) :
+    Search.evalFor b b.turn false = if isCurrentInCheck b then lossScore + (b.fullmove : Int) else 0 := by
+  unfold Search.evalFor Search.factor evaluate
+  have hd := drawScore_val
+  have hl : lossScore = -winScore := rfl
+  have : b.turn = 0 ∨ b.turn = 1 := by omega
+  rcases this with h | h <;> rw [h] <;> by_cases hc : isCurrentInCheck b = true <;> simp [hc, hd, hl] <;> omega
+
+theorem term_ge_loss (b : Board) : lossScore ≤ Search.evalFor b b.turn false := by
+  unfold Search.evalFor Search.factor evaluate
+  have hd := drawScore_val
+  have hl : lossScore = -winScore := rfl
+  have hw := winScore_val
+  by_cases h : (b.turn == 0) = true <;> by_cases hc : isCurrentInCheck b = true <;> simp [h, hc, hd, hl] <;> omega
+
+theorem isOrder_natural : IsOrder natural := fun _ l => List.Perm.refl l
+theorem isOrder_byMvvLva : IsOrder byMvvLva := fun _ l => List.mergeSort_perm l _
+theorem isOrder_searchOrder : IsOrder searchOrder := isOrder_byMvvLva
+
+theorem game_leafOk (qorder : Pos → List Move → List Move) (hq : IsOrder qorder) : LeafOk (chess.game qorder) :=
+  searchGame_leafOk chess qorder hq
+
+theorem game_loss (qorder : Pos → List Move → List Move) : (chess.game qorder).loss = lossScore := rfl
+
+theorem game_term_ge (qorder : Pos → List Move → List Move) (p : Pos) :
+    (chess.game qorder).loss ≤ (chess.game qorder).term p := term_ge_loss p.1
+
+theorem game_leaf_bound (qorder : Pos → List Move → List Move) (p : Pos) :
+    -176000 ≤ (chess.game qorder).leafExact p ∧ (chess.game qorder).leafExact p ≤ 176000 := by
+  show -176000 ≤ (if chess.noisy p then Qexact chess.qgame chess.fuel p else chess.static p) ∧
+    (if chess.noisy p then Qexact chess.qgame chess.fuel p else chess.static p) ≤ 176000
+  split
+  · exact Qexact_bound chess.qgame 176000 (fun p => standPat_bound p.1 p.1.turn) _ _
+  · exact standPat_bound p.1 p.1.turn
+
+end Inkayaku.SpecSearch
